@@ -43,7 +43,12 @@ def run(ctx, spec):
   from paranoid_crypto.lib.randomness_tests import rng as rrng
   r = ctx.rng('c20')
   names = rrng.RngNames()
-  seeds = [1, 2, 2 ** 31, 2 ** 63, 2 ** 64 + 1, 2 ** 160 + 5]
+  # non-zero seeds incl. values whose low 32/48/64/160 bits are all zero (the
+  # generators reduce or split the seed at those widths)
+  seeds = [1, 2, 2 ** 31, 2 ** 63, 2 ** 64 + 1, 2 ** 160 + 5, 2 ** 64,
+           3 * 2 ** 64, 2 ** 128, 2 ** 160, 2 ** 32, 2 ** 48,
+           0xDEADBEEF << 64, 2 ** 31 - 1, 2 ** 192 + 2 ** 64, 2 ** 31 - 2,
+           (2 ** 64 - 742) * 2 ** 64 - 1, 5 << 160]
   last = {}
   for gi, name in enumerate(names):
     g = rrng.GetRng(name)
